@@ -648,6 +648,22 @@ func (s *ResettableKeystore) handleResetOp(op resetOp) {
 	}
 
 	if op.success {
+		// Persist the new active namespace before anything is swapped: if the
+		// marker cannot be written the swap must not happen, otherwise the
+		// teardown below would empty the slot a restarted keystore still reads.
+		activeValue := []byte{1 - s.activeNamespace}
+		if err := s.metaDs.Put(ctx, activeNamespaceKey, activeValue); err != nil {
+			s.logger.Errorf("keystore: aborting swap, failed to persist active namespace marker: %v", err)
+			op.success = false
+		}
+	}
+
+	if op.success {
+		// Sync to ensure marker is persisted
+		if err := s.metaDs.Sync(ctx, activeNamespaceKey); err != nil {
+			s.logger.Warnf("keystore: failed to sync active namespace marker: %v", err)
+		}
+
 		// Swap the active datastore.
 		oldDs := s.ds
 		s.ds = s.altDs
@@ -657,17 +673,6 @@ func (s *ResettableKeystore) handleResetOp(op resetOp) {
 		// Toggle the active namespace index
 		s.activeNamespace = 1 - s.activeNamespace
 		s.logger.Infof("keystore: swapped active namespace to %d (size=%d)", s.activeNamespace, s.size)
-		// Persist the new active namespace
-		activeValue := []byte{s.activeNamespace}
-
-		// Write the active namespace marker
-		if err := s.metaDs.Put(ctx, activeNamespaceKey, activeValue); err != nil {
-			s.logger.Errorf("keystore: failed to persist active namespace marker: %v", err)
-		}
-		// Sync to ensure marker is persisted
-		if err := s.metaDs.Sync(ctx, activeNamespaceKey); err != nil {
-			s.logger.Warnf("keystore: failed to sync active namespace marker: %v", err)
-		}
 	}
 	// Tear down the unused datastore (old active after swap, or partial
 	// alt on failure).
